@@ -2,8 +2,8 @@
    in which the effect collections are visited.  Statements only; proofs in Proofs/C03_*.v.
 
    Reading guide.
-     apply_op_o d eps ga (Some objs) allow skip order uorder s (Proofs/C03_Defs.v)   is Operator.apply(s, allow, skip)
-       of the library, [order]/[uorder] being the iteration orders of Operator.grounded_effects (0 = the unconditional
+     Model.Exec.apply_op d eps ga (Some objs) allow skip order uorder s   is Operator.apply(s, allow, skip) of the
+       library, [order]/[uorder] being the iteration orders of Operator.grounded_effects (0 = the unconditional
        group, i = the i-th 'when') and of Action.universal_effects.
      Spec.Pddl.successor eps tt objs A args s = succ s (all_groups ...)   is the PDDL successor: [all_groups] lists,
        for every effect that fires in s, its primitive effects with conditions and right-hand sides evaluated in s;
@@ -16,14 +16,14 @@
      evaluates: visiting the groups raises nothing (no division by zero in a condition or a firing right-hand side,
        quantified effects ground).  names_ok: no constant of the domain is also a parameter / quantified variable.
 
-   The model of apply is [apply_op_o] (Proofs/C03_Defs.v): the text of Model.Exec.apply_op with the one change of repair
-   D40 (commit 40d673f: the condition of a 'when' is evaluated WITH the problem objects, so a 'forall' inside it ranges
-   over them).  Before that repair the full statement was false (witness in findings.d/C03.json, now a regression case);
-   the shared Model/Exec.v is to follow (requests/C03.md), after which apply_op_o = apply_op by reflexivity.
+   Model.Exec.apply_op describes the library after repair D40 (commit 40d673f): the condition of a 'when' is evaluated
+   WITH the problem objects, so a 'forall' inside it ranges over them (before that repair the statement was false for
+   such conditions: witness in findings.d/C03.json, now a regression case; C03_when_forall_example below).
    C03_order_independent_model speaks about the model alone (consistency of the groups the model fires). *)
 From Coq Require Import List String Bool PrimFloat Permutation.
 From Verif Require Import Base.Result Base.Str Base.PyDict Model.Types Model.Domain Model.Exec Spec.Pddl
-  Proofs.C03_Spec Proofs.C03_Defs Proofs.C03_Refine Proofs.C03_Main Proofs.C03_Examples Proofs.C03_Closed.
+  Proofs.C03_Spec Proofs.C03_Defs Proofs.C03_Refine Proofs.C03_Main Proofs.C03_Inner Proofs.C03_Examples
+  Corr.Core Proofs.C03_Judge Proofs.C03_Closed.
 Import ListNotations.
 
 (* C03_successor.  For EVERY visiting order of the effect groups and of the universal effects the model returns a
@@ -37,9 +37,38 @@ Theorem C03_successor :
     evaluates d eps objs ga s ->
     consistent (all_groups eps (d_types d) objs (spec_action a effs) args s) = true ->
     forall order uorder, is_order order (List.length (ga_groups ga)) -> is_order uorder (List.length (ma_univ a)) ->
-    exists s', apply_op_o d eps ga (Some objs) false false order uorder s = Ok s' /\
+    exists s', apply_op d eps ga (Some objs) false false order uorder s = Ok s' /\
                state_eq s' (successor eps (d_types d) objs (spec_action a effs) args s).
 Proof. exact C03_successor_lemma. Qed.
+
+(* The same, judged by the boolean comparator of the correspondence check (Corr.Core.state_equiv: facts as sets, fluent
+   maps with bit-equal values): on a state whose fluent list has no repeated key the comparator answers true. *)
+Theorem C03_successor_judged :
+  forall (d : mdomain) (eps : float) (a : maction) (effs : list eff) (args : list string) (ga : gaction)
+         (objs : objects) (s : state),
+    denote_effs a = Some effs -> names_ok d a = true ->
+    ground_action d a args = Ok ga ->
+    is_applicable d eps (Some objs) ga s = Ok true ->
+    evaluates d eps objs ga s ->
+    consistent (all_groups eps (d_types d) objs (spec_action a effs) args s) = true ->
+    NoDup (map fst (fluents s)) ->
+    forall order uorder, is_order order (List.length (ga_groups ga)) -> is_order uorder (List.length (ma_univ a)) ->
+    exists s', apply_op d eps ga (Some objs) false false order uorder s = Ok s' /\
+               state_equiv s' (successor eps (d_types d) objs (spec_action a effs) args s) = true.
+Proof. exact C03_successor_judged_lemma. Qed.
+
+(* Partial-correctness form, without "evaluates" and without "applicable": WHATEVER a call of apply returns (default flags or
+   allow_inapplicable_actions), in whatever visiting order, is the PDDL successor. *)
+Theorem C03_returned_is_successor :
+  forall (d : mdomain) (eps : float) (a : maction) (effs : list eff) (args : list string) (ga : gaction)
+         (objs : objects) (s s1 : state) (allow : bool) (order uorder : list nat),
+    denote_effs a = Some effs -> names_ok d a = true ->
+    ground_action d a args = Ok ga ->
+    is_order order (List.length (ga_groups ga)) -> is_order uorder (List.length (ma_univ a)) ->
+    apply_op d eps ga (Some objs) allow false order uorder s = Ok s1 ->
+    consistent (all_groups eps (d_types d) objs (spec_action a effs) args s) = true ->
+    state_eq s1 (successor eps (d_types d) objs (spec_action a effs) args s).
+Proof. exact C03_returned_is_successor_lemma. Qed.
 
 (* The schedules quantifier.  Two visiting orders that are permutations of each other give set-equal states.
    Proved by commutation of consistent groups (C03_Spec.succ_rearr: induction on Permutation), not by enumeration. *)
@@ -55,8 +84,8 @@ Theorem C03_order_independent :
       is_order order (List.length (ga_groups ga)) -> Permutation order order' ->
       is_order uorder (List.length (ma_univ a)) -> Permutation uorder uorder' ->
       exists s1 s2,
-        apply_op_o d eps ga (Some objs) false false order uorder s = Ok s1 /\
-        apply_op_o d eps ga (Some objs) false false order' uorder' s = Ok s2 /\
+        apply_op d eps ga (Some objs) false false order uorder s = Ok s1 /\
+        apply_op d eps ga (Some objs) false false order' uorder' s = Ok s2 /\
         state_eq s1 s2.
 Proof. exact C03_order_independent_lemma. Qed.
 
@@ -71,8 +100,8 @@ Theorem C03_order_independent_model :
       is_order order (List.length (ga_groups ga)) -> is_order order' (List.length (ga_groups ga)) ->
       is_order uorder (List.length (ma_univ (ga_action ga))) -> is_order uorder' (List.length (ma_univ (ga_action ga))) ->
       exists s1 s2,
-        apply_op_o d eps ga (Some objs) allow false order uorder s = Ok s1 /\
-        apply_op_o d eps ga (Some objs) allow false order' uorder' s = Ok s2 /\
+        apply_op d eps ga (Some objs) allow false order uorder s = Ok s1 /\
+        apply_op d eps ga (Some objs) allow false order' uorder' s = Ok s2 /\
         state_eq s1 s2.
 Proof. exact C03_order_independent_model_lemma. Qed.
 
@@ -84,11 +113,44 @@ Theorem C03_groups_commute :
     consistent gs = true -> rearr gs gs' -> state_eq (succ s gs) (succ s gs') /\ consistent gs' = true.
 Proof. exact C03_groups_commute_lemma. Qed.
 
+(* Order independence needs no separate "evaluates" hypothesis: if the call returns in ONE visiting order then it returns
+   in every visiting order, with a set-equal result (consistency asked of the groups the model fires). *)
+Theorem C03_order_independent_run :
+  forall (d : mdomain) (eps : float) (objs : objects) (ga : gaction) (allow : bool) (order uorder : list nat) (s s1 : state),
+    is_order order (List.length (ga_groups ga)) -> is_order uorder (List.length (ma_univ (ga_action ga))) ->
+    apply_op d eps ga (Some objs) allow false order uorder s = Ok s1 ->
+    consistent (canon_groups d eps objs ga s) = true ->
+    forall order' uorder',
+      is_order order' (List.length (ga_groups ga)) -> is_order uorder' (List.length (ma_univ (ga_action ga))) ->
+      exists s2, apply_op d eps ga (Some objs) allow false order' uorder' s = Ok s2 /\ state_eq s1 s2.
+Proof. exact C03_order_independent_run_lemma. Qed.
+
+(* The collections INSIDE the action object (discrete effects, numeric effects, conditional effects, universal effects
+   and the effect sets of each of them are hash sets in the library, lists in the model): two model actions that differ
+   only by the order of these lists denote the same successor. *)
+Theorem C03_stored_order :
+  forall (eps : float) (tt : tytree) (objs : objects) (a a' : maction) (effs : list eff) (args : list string) (s : state),
+    maction_perm a a' -> denote_effs a = Some effs ->
+    consistent (all_groups eps tt objs (spec_action a effs) args s) = true ->
+    exists effs', denote_effs a' = Some effs' /\
+      state_eq (successor eps tt objs (spec_action a effs) args s) (successor eps tt objs (spec_action a' effs') args s) /\
+      consistent (all_groups eps tt objs (spec_action a' effs') args s) = true.
+Proof. exact C03_stored_order_lemma. Qed.
+
+(* Spec level: the order of the effects of an action and of the primitive effects inside each is immaterial. *)
+Theorem C03_effects_order :
+  forall (eps : float) (tt : tytree) (objs : objects) (A A' : action) (args : list string) (s : state),
+    a_params A = a_params A' -> effs_perm (a_effs A) (a_effs A') ->
+    consistent (all_groups eps tt objs A args s) = true ->
+    state_eq (successor eps tt objs A args s) (successor eps tt objs A' args s) /\
+    consistent (all_groups eps tt objs A' args s) = true.
+Proof. exact C03_effects_order_lemma. Qed.
+
 (* Refusal: an inapplicable call raises ValueError unless allowed ... *)
 Theorem C03_refused :
   forall (d : mdomain) (eps : float) (ga : gaction) (objs : objects) (s : state) (order uorder : list nat),
     is_applicable d eps (Some objs) ga s = Ok false ->
-    apply_op_o d eps ga (Some objs) false false order uorder s = Err EValue.
+    apply_op d eps ga (Some objs) false false order uorder s = Err EValue.
 Proof. exact C03_refused_lemma. Qed.
 
 (* ... and with allow_inapplicable_actions the forced successor is returned. *)
@@ -101,7 +163,7 @@ Theorem C03_forced :
     evaluates d eps objs ga s ->
     consistent (all_groups eps (d_types d) objs (spec_action a effs) args s) = true ->
     forall order uorder, is_order order (List.length (ga_groups ga)) -> is_order uorder (List.length (ma_univ a)) ->
-    exists s', apply_op_o d eps ga (Some objs) true false order uorder s = Ok s' /\
+    exists s', apply_op d eps ga (Some objs) true false order uorder s = Ok s' /\
                state_eq s' (successor eps (d_types d) objs (spec_action a effs) args s).
 Proof. exact C03_forced_lemma. Qed.
 
@@ -117,7 +179,7 @@ Section Returned.
   Hypothesis Hc : consistent (all_groups eps (d_types d) objs (spec_action a effs) args s) = true.
   Hypothesis Ho : is_order order (List.length (ga_groups ga)).
   Hypothesis Hu : is_order uorder (List.length (ma_univ a)).
-  Hypothesis Hret : apply_op_o d eps ga (Some objs) false false order uorder s = Ok s'.
+  Hypothesis Hret : apply_op d eps ga (Some objs) false false order uorder s = Ok s'.
 
   Let G := all_groups eps (d_types d) objs (spec_action a effs) args s.
 
@@ -157,22 +219,27 @@ End Returned.
    (when (forall (?z - t0) (and (p ?z))) (q)) does not fire; with (p o1) it does *)
 Theorem C03_when_forall_example :
   denote_effs d40_act = Some d40_effs /\ forallb eff_when_qfree d40_effs = false /\
-  apply_op_o d40_dom ex_eps d40_ga (Some d40_objs) false false [0; 1] [] d40_state = Ok d40_state /\
-  (exists s', apply_op_o d40_dom ex_eps d40_ga (Some d40_objs) false false [1; 0] [] d40_state2 = Ok s' /\
+  apply_op d40_dom ex_eps d40_ga (Some d40_objs) false false [0; 1] [] d40_state = Ok d40_state /\
+  (exists s', apply_op d40_dom ex_eps d40_ga (Some d40_objs) false false [1; 0] [] d40_state2 = Ok s' /\
               atom_in ("q", []) (facts s') = true).
 Proof. exact when_forall_example. Qed.
 
 (* the hypotheses are satisfiable by a non-trivial action (add, delete, delete+add of one atom, increase, a firing
    'when', a non-firing 'when', a 'forall-when' over a type with a subtype), visited in the order [2;0;1] *)
 Theorem C03_example :
-  exists s', apply_op_o ex_dom ex_eps ex_ga (Some ex_objs) false false [2; 0; 1] [0] ex_state = Ok s' /\
+  exists s', apply_op ex_dom ex_eps ex_ga (Some ex_objs) false false [2; 0; 1] [0] ex_state = Ok s' /\
              state_eq s' (successor ex_eps (d_types ex_dom) ex_objs (spec_action ex_act ex_effs) ex_args ex_state).
 Proof. exact C03_example_lemma. Qed.
 
 Print Assumptions C03_successor.
+Print Assumptions C03_successor_judged.
+Print Assumptions C03_returned_is_successor.
 Print Assumptions C03_order_independent.
 Print Assumptions C03_order_independent_model.
 Print Assumptions C03_groups_commute.
+Print Assumptions C03_order_independent_run.
+Print Assumptions C03_stored_order.
+Print Assumptions C03_effects_order.
 Print Assumptions C03_refused.
 Print Assumptions C03_forced.
 Print Assumptions C03_facts.
